@@ -40,6 +40,7 @@ def check(repo, rep, tier):
     ti = rp.r_category_table(repo, rep, 'R10.3')
     if ti:
         rp.r_sentence_loop(repo, rep, 'R10.3', ti)
+        rp.r_root_ids(repo, rep, 'R10.3', ti)            # every allowed root category gets an id, whether the tagger knows it or not
         rp.r_callbacks(repo, rep, 'R10.2')
     # "the list returned for a sentence": a large batch goes through a pool of workers in chunks; the n-best list that comes
     # back at position i must be the one computed from sentence i (shared with C11 R11.2 / R11.3)
